@@ -19,7 +19,7 @@ Section TransferTick.
   (* a generator is stored back into its map entry (the only map update outside the transitions) *)
   Hypothesis P_ints : forall s n sr k, P s -> P (with_ints s (write_back (ints s) n sr k) (serial s)).
   Hypothesis P_sched : forall s, P s -> P {| nodes := nodes s; ints := ints s; serial := serial s; last_error := last_error s;
-                                             block_tag := block_tag s; scheduled := 0; marks := marks s |}.
+                                             block_tag := block_tag s; scheduled := 0; marks := marks s; macros := macros s |}.
 
   Lemma unwind_P k : forall s k' s', P s -> unwind k s = Some (k', s') -> P s'.
   Proof.
@@ -86,7 +86,7 @@ Section Transfer.
   Hypothesis P_ints : forall s n sr k, P s -> P (with_ints s (write_back (ints s) n sr k) (serial s)).
   Hypothesis P_cmd : forall s n, P s -> P (mark_completed s n).
   Hypothesis P_sched : forall s, P s -> P {| nodes := nodes s; ints := ints s; serial := serial s; last_error := last_error s;
-                                             block_tag := block_tag s; scheduled := 0; marks := marks s |}.
+                                             block_tag := block_tag s; scheduled := 0; marks := marks s; macros := macros s |}.
 
   Lemma complete_cmds_P l : forall s, P s -> P (fold_left (complete_cmd p) l s).
   Proof.
